@@ -13,8 +13,17 @@ package physical
 // C11: materializing a call of a strict function hands NewFunctionCall exactly the positions of the arguments whose
 // static type admits NULL (so the call yields NULL whenever such an argument is NULL, execution.FunctionCall.Evaluate),
 // and every position handed over is a valid argument index.
+//@ spec sameFields(a []octosql.StructField, b []octosql.StructField) bool = a.base == b.base && a.off == b.off && len(a) == len(b)
 //@ func (*Expression).Materialize
 //@   requires validargs: validT(Null) && (expr.ExpressionType == 2 ==> forall(j, 0, len(expr.FunctionCall.Arguments), validT(expr.FunctionCall.Arguments[j].Type)))
+//@   requires objaccess: expr.ExpressionType == 10 ==> expr.ObjectFieldAccess != nil && validT(expr.ObjectFieldAccess.Object.Type)
+// C08 (object field access): the fields scanned for the name are the fields of the object type itself — the type of
+// the object expression, or, when that is "object or NULL" (the alternatives in either order, as the typechecker's
+// assertion builds them), its object alternative — so the index materialized is the named field's.
+//@   loop 11 invariant fieldsof: (expr.ObjectFieldAccess.Object.Type.TypeID == 8 ==> sameFields(fields, expr.ObjectFieldAccess.Object.Type.Struct.Fields)) && (expr.ObjectFieldAccess.Object.Type.TypeID == 10 && len(expr.ObjectFieldAccess.Object.Type.Union.Alternatives) == 2 && expr.ObjectFieldAccess.Object.Type.Union.Alternatives[0].TypeID == 8 && expr.ObjectFieldAccess.Object.Type.Union.Alternatives[1].TypeID == 0 ==> sameFields(fields, expr.ObjectFieldAccess.Object.Type.Union.Alternatives[0].Struct.Fields)) && (expr.ObjectFieldAccess.Object.Type.TypeID == 10 && len(expr.ObjectFieldAccess.Object.Type.Union.Alternatives) == 2 && expr.ObjectFieldAccess.Object.Type.Union.Alternatives[0].TypeID == 0 && expr.ObjectFieldAccess.Object.Type.Union.Alternatives[1].TypeID == 8 ==> sameFields(fields, expr.ObjectFieldAccess.Object.Type.Union.Alternatives[1].Struct.Fields))
+// frame: materializing an expression does not change its static type (the recursive calls go through pointers into the expression tree)
+//@   ensures frame: same(deref(expr).Type, old(deref(expr).Type))
+//@   loop 11 invariant scan: 0 <= $k && $k <= len(fields) && fieldIndex == 0 && forall(j, 0, $k, fields[j].Name != expr.ObjectFieldAccess.Field)
 //@   loop 4 invariant indices: 0 <= $k && $k <= len(expr.FunctionCall.Arguments) && forall(j, 0, len(nullCheckIndices), 0 <= nullCheckIndices[j] && nullCheckIndices[j] < $k)
 //@   loop 4 invariant complete: forall(i, 0, $k, Null.Is(expr.FunctionCall.Arguments[i].Type) == 2 ==> exists(j, 0, len(nullCheckIndices), nullCheckIndices[j] == i))
 //@   loop 4 invariant only: forall(j, 0, len(nullCheckIndices), Null.Is(expr.FunctionCall.Arguments[nullCheckIndices[j]].Type) == 2)
